@@ -86,6 +86,72 @@ vf_gost_snapshot(const gost3411_2012_ctx_t *ctx) {
 	}
 	return 1;
 }
+/* The two 512-bit adders (N += bits, Sigma += m) under their own contracts: result == the
+ * specification's addition modulo 2^512 (vf_gost_add512; job gost.addmod512 states the same
+ * against one 512-bit bit-vector sum).  ENFORCED by jobs gost.add512 / gost.add512_digit,
+ * REPLACED inside the g_N step (jobs gost.T.gN*), which then only has to show the composition:
+ * K from h xor N with the OLD N, N advanced by the declared bit length, Sigma by the block. */
+static inline _Bool
+vf_gost_add_post(uint64_t a0, uint64_t a1, uint64_t a2, uint64_t a3, uint64_t a4, uint64_t a5,
+    uint64_t a6, uint64_t a7, const uint64_t *b, const uint64_t *now) {
+	uint64_t e[8], bb[8];
+	e[0] = a0; e[1] = a1; e[2] = a2; e[3] = a3; e[4] = a4; e[5] = a5; e[6] = a6; e[7] = a7;
+	for (unsigned i = 0; i < 8; i++) bb[i] = b[i];
+	vf_gost_add512(e, bb);
+	return VF_GOST_EQ8(e, now);
+}
+static inline _Bool
+vf_gost_add_digit_post(uint64_t a0, uint64_t a1, uint64_t a2, uint64_t a3, uint64_t a4, uint64_t a5,
+    uint64_t a6, uint64_t a7, uint64_t d, const uint64_t *now) {
+	uint64_t e[8], nb[8] = { 0, 0, 0, 0, 0, 0, 0, 0 };
+	e[0] = a0; e[1] = a1; e[2] = a2; e[3] = a3; e[4] = a4; e[5] = a5; e[6] = a6; e[7] = a7;
+	nb[0] = d;
+	vf_gost_add512(e, nb);
+	return VF_GOST_EQ8(e, now);
+}
+#define VF_GOST_OLD8(a)	__CPROVER_old((a)[0]), __CPROVER_old((a)[1]), __CPROVER_old((a)[2]), __CPROVER_old((a)[3]), \
+			__CPROVER_old((a)[4]), __CPROVER_old((a)[5]), __CPROVER_old((a)[6]), __CPROVER_old((a)[7])
+#ifdef VF_GOST_ADD_ENFORCE
+#define VF_GOST_ADD_RW(a)	__CPROVER_is_fresh(a, 64)
+#define VF_GOST_ADD_RO(b)	__CPROVER_is_fresh(b, 64)
+#else
+#define VF_GOST_ADD_RW(a)	__CPROVER_w_ok(a, 64)
+#define VF_GOST_ADD_RO(b)	__CPROVER_r_ok(b, 64)
+#endif
+static inline void
+gost3411_2012_addmod512(uint64_t *a, const uint64_t *b)
+__CPROVER_requires(VF_GOST_ADD_RW(a) && VF_GOST_ADD_RO(b))
+__CPROVER_assigns(__CPROVER_object_upto(a, 64))
+__CPROVER_ensures(vf_gost_add_post(VF_GOST_OLD8(a), b, a))
+;
+static inline void
+gost3411_2012_addmod512_digit(uint64_t *a, const uint64_t b)
+__CPROVER_requires(VF_GOST_ADD_RW(a))
+__CPROVER_assigns(__CPROVER_object_upto(a, 64))
+__CPROVER_ensures(vf_gost_add_digit_post(VF_GOST_OLD8(a), b, a))
+;
+
+/* X then L.P.S on 512 bits: dst = LPS(a xor b) (RFC 6986 section 6), the only place where the
+ * tables are used by the g_N step.  ENFORCED by jobs gost.XSLP.* (all call shapes, incl.
+ * dst == a), REPLACED inside jobs gost.T.gN*: the g_N step is then pure composition. */
+static inline _Bool
+vf_gost_xslp_post(uint64_t a0, uint64_t a1, uint64_t a2, uint64_t a3, uint64_t a4, uint64_t a5,
+    uint64_t a6, uint64_t a7, uint64_t b0, uint64_t b1, uint64_t b2, uint64_t b3, uint64_t b4,
+    uint64_t b5, uint64_t b6, uint64_t b7, const uint64_t *now) {
+	uint64_t t[8], e[8];
+	t[0] = a0 ^ b0; t[1] = a1 ^ b1; t[2] = a2 ^ b2; t[3] = a3 ^ b3;
+	t[4] = a4 ^ b4; t[5] = a5 ^ b5; t[6] = a6 ^ b6; t[7] = a7 ^ b7;
+	VF_GOST_LPS(e, t);
+	return VF_GOST_EQ8(e, now);
+}
+static inline void
+gost3411_2012_XSLP(gost3411_2012_ctx_p ctx, uint64_t *dst, const uint64_t *a, const uint64_t *b)
+__CPROVER_requires(__CPROVER_w_ok(ctx, sizeof(gost3411_2012_ctx_t)) && __CPROVER_w_ok(dst, 64) &&
+    __CPROVER_r_ok(a, 64) && __CPROVER_r_ok(b, 64))
+__CPROVER_assigns(__CPROVER_object_upto(dst, 64), __CPROVER_object_upto(ctx->sbuf, sizeof(ctx->sbuf)))
+__CPROVER_ensures(vf_gost_xslp_post(VF_GOST_OLD8(a), VF_GOST_OLD8(b), dst))
+;
+
 #define VF_GOST_TN_CONTRACT(fn)								\
 static inline void									\
 fn(gost3411_2012_ctx_p ctx, const size_t block_size_bits, const uint8_t *blocks,	\
